@@ -68,7 +68,12 @@ _public_ int m_queue_itr_remove(m_queue_itr_t *itr) {
             itr->q->dtor(tmp->userptr);
         }
         if (tmp == itr->q->tail) {
-            itr->q->tail = NULL;
+            /* Removed last element: new tail is the node owning the link we came from (if any) */
+            if (itr->elem == &itr->q->head) {
+                itr->q->tail = NULL;
+            } else {
+                itr->q->tail = (queue_elem *)((char *)itr->elem - offsetof(queue_elem, prev));
+            }
         }
         memhook._free(tmp);
         itr->q->len--;
